@@ -153,6 +153,12 @@ fn run_hist(a: &Args, acc: &mut Acc) {
                 continue;
             }
         };
+        // a separate small deployment goes through a complete exit and re-entry
+        let mut runs: Vec<hist::Run> = vec![];
+        if let Ok(mut mini) = hist::Run::new(&cfg, &props) {
+            mini.exit_scenario();
+            runs.push(mini);
+        }
         run.prologue();
         let prof = hist::profile_for(props[0], &mut crng);
         let mut g = gen::Gen::new(hseed ^ 0xabcdef, prof);
@@ -168,6 +174,8 @@ fn run_hist(a: &Args, acc: &mut Acc) {
                 }
             }
         }
+        runs.push(run);
+        for run in runs {
         // merge
         for (k, v) in &run.model.counters {
             acc.add(k, *v);
@@ -211,6 +219,7 @@ fn run_hist(a: &Args, acc: &mut Acc) {
                     acc.violations.push(json!({"property": v.prop, "what": v.what, "sig": sig, "replay": path}));
                 }
             }
+        }
         }
         h += 1;
     }
